@@ -3,7 +3,7 @@
    The model returns the 10th power of the bandwidth (no roots in Q):
       (1.06 * s * n^(-1/5))^10 = 1.06^10 * (s^2)^5 / n^2  =  rule10 (s^2) n. *)
 From MM Require Import Base.Num Base.GASort Model.Stream Proofs.Stream Model.Sample Spec.Sample Proofs.Sample.
-From MM Require Import Model.Quantile Model.Kde Spec.Kde.
+From MM Require Import Model.Quantile Spec.Quantile Proofs.Quantile Model.Kde Spec.Kde.
 From Coq Require Import Lqa Lia.
 Local Open Scope Q_scope.
 
@@ -68,6 +68,25 @@ Proof.
     + apply Qle_bool_iff in B. apply bw10_is_rule10. rewrite <- V2 in B.
       apply Qle_antisym; [exact A | exact B] || (rewrite <- V2; apply Qle_antisym; assumption).
     + apply bw10_is_rule10. reflexivity.
+Qed.
+
+(* for a plain unweighted sample the two quantiles exist (Hyndman-Fan type 8 with the code's
+   float constant for 1/3: hf_def third_f, C10), the inter-quartile range is non-negative, and
+   Scott's rule is the formula *)
+Theorem scott_rule_unsorted (xs : list Q) : (2 <= length xs)%nat ->
+  exists a b v : Q,
+    quantile (unsorted xs) (3 # 4) = RVal a /\ quantile (unsorted xs) (1 # 4) = RVal b /\
+    a == hf_def third_f xs (3 # 4) /\ b == hf_def third_f xs (1 # 4) /\ b <= a /\
+    bandwidth_scott10 (unsorted xs) = BwPow10 v /\
+    let r := (a - b) / (1349 # 1000) in
+    v == rule10 (Qminb (var_def xs) (r * r)) (Qofnat (length xs)).
+Proof.
+  intro L. assert (Hne : xs <> []) by (destruct xs; [cbn in L; lia | discriminate]).
+  destruct (quantile_code_hf xs (3 # 4) Hne) as [a [A1 A2]].
+  destruct (quantile_code_hf xs (1 # 4) Hne) as [b [B1 B2]].
+  destruct (scott_rule (unsorted xs) a b eq_refl L A1 B1) as [v [V1 V2]].
+  exists a, b, v. repeat split; try assumption.
+  apply (quantile_monotone_in_q xs (1 # 4) (3 # 4) b a); [discriminate | exact B1 | exact A1].
 Qed.
 
 (* the rules are not defined for an empty sample (NaN) and panic for a weighted one
